@@ -2330,6 +2330,15 @@ func (f *fragment) importRoaring(ctx context.Context, data []byte, clear bool) e
 	f.mu.Lock()
 	defer f.mu.Unlock()
 	span.Finish()
+	// The data file may have been closed to stay under the open-file limit;
+	// without it the import would be applied but not logged.
+	mustClose, err := f.reopen()
+	if err != nil {
+		return errors.Wrap(err, "reopening")
+	}
+	if mustClose {
+		defer f.safeClose()
+	}
 	span, ctx = tracing.StartSpanFromContext(ctx, "importRoaring.ImportRoaringBits")
 	changed, rowSet, err := f.storage.ImportRoaringBits(data, clear, true, rowSize)
 	span.Finish()
